@@ -3,12 +3,12 @@
 From Coq Require Import String Ascii.
 From Coq Require Import List NArith ZArith Bool.
 From Flocq Require Import IEEE754.BinarySingleNaN.
-From Cambrian Require Import Base.F64 SourceFacts Syntax Ops SpecBuild Codec Cli Check.OpsCheck.
+From Cambrian Require Import Base.F64 SourceFacts Syntax Ops SpecBuild Codec RoundTrip Cli Check.OpsCheck.
 Import ListNotations.
 Local Open Scope string_scope.
 
 Inductive kclass := KAccept | KReject | KSeq | KSeqNull | KFail.
-Inductive guess_mode := GNone | GInit | GBadJson | GNonConforming.
+Inductive guess_mode := GNone | GInit | GOther | GBadJson | GNonConforming.
 Record child := mkChild { ch_name : string; ch_user_args : list string; ch_json : option json; ch_seed : string }.
 
 Record cli_obs := mkCliObs {
@@ -19,9 +19,9 @@ Record cli_obs := mkCliObs {
   c_sentinel_ok : option bool; c_rows : list (N * N * json * option f64); c_rows_ok : bool;
   c_bestfile : option json; c_summary : option (f64 * N * N); c_survivors : nat; c_panicked : bool;
   c_timed_out : bool; c_verbose_same : bool; c_has_failed_stdout : bool;
-  c_wall_ms : N; c_limit_ms : option N; c_all_fast_ok : bool }.
+  c_wall_ms : N; c_limit_ms : option N; c_all_fast_ok : bool; c_guess_json : option json }.
 
-(** the three spec files of tools/clistream.py *)
+(** the spec files of tools/clistream.py *)
 Definition cli_spec (i : nat) : spec :=
   match i with
   | 0%nat => SSub [("x", SReal (of_bits 0x3FF8000000000000) fone (Some (of_bits 0xC024000000000000)) (Some (of_bits 0x4024000000000000)))]
@@ -30,6 +30,8 @@ Definition cli_spec (i : nat) : spec :=
                    ("m", SAnonMap (SInt 3 fone (Some 0%Z) (Some 9%Z)) 2 None (Some 3%nat))]
   | 2%nat => SSub [("v", SVariant [("a", SConst); ("b", SReal (of_bits 0x3FD0000000000000) (of_bits 0x3FE0000000000000) (Some fzero) None)] "a");
                ("o", SOptional (SArray (SBool false) 2) false)]
+  | 4%nat => (* a root that is not a sub: the guess [null] is valid and differs from the initial value *)
+         SOptional (SReal fone fone None None) true
   | _ => (* member names: "x" / "xy" followed by 40 times U+00E4 (bytes 195 164) *)
          let tail := fold_right (fun _ s => String (Ascii.ascii_of_nat 195) (String (Ascii.ascii_of_nat 164) s)) EmptyString (seq 0 40) in
          SSub [(String "x" tail, SReal (of_bits 0x3FF8000000000000) fone None None);
@@ -168,8 +170,25 @@ Definition mon_C11 (o : cli_obs) : bool :=
   negb (c_panicked o) && negb (c_timed_out o) &&
   match c_guess o with
   | GNone => true
-  | GInit => Nat.ltb 0 (n_started o) || N.eqb (c_n o) 0
+  | GInit | GOther => Nat.ltb 0 (n_started o) || N.eqb (c_n o) 0
   | GBadJson | GNonConforming => negb (exit_zero o) && Nat.eqb (n_started o) 0 && Nat.eqb (c_stdout_lines o) 0
+  end.
+
+(** ** C08 through the binary: the evaluation with seed 0 is the first individual; it receives the
+    explicit initial guess when one is given (and accepted), the spec's initial value otherwise *)
+Definition first_expected (o : cli_obs) : option json :=
+  match c_guess_json o with
+  | Some g => Some g
+  | None => match to_json (init_val (cli_spec (c_spec o))) with JOk j => Some j | _ => None end
+  end.
+Definition mon_C08 (o : cli_obs) : bool :=
+  pre_error o || opt_is (c_invalid o) ||
+  match find (fun c => String.eqb (ch_seed c) "0") (c_children o) with
+  | None => true
+  | Some c => match ch_json c, first_expected o with
+              | Some j, Some e => RoundTrip.jeq e j
+              | _, _ => false
+              end
   end.
 
 (** ** C07 *)
@@ -206,8 +225,29 @@ Fixpoint jeq (a b : json) {struct a} : bool :=
   | _, _ => false
   end.
 
+(** every child that was started and whose scripted result is an accepted value or a rejection is a
+    processed evaluation unless the run stopped at its target (evaluations in flight are then
+    dropped): whatever ended the run -- budget, time limit, a failing evaluation -- the detailed
+    report has exactly one record with its seed, carrying the parameter set it received *)
+Definition rows_cover (o : cli_obs) : bool :=
+  forallb (fun c =>
+             match parse_usize (ch_seed c) with
+             | Some sd =>
+                 match fst (beh_at o (N.to_nat sd)) with
+                 | KAccept | KReject =>
+                     match filter (fun r => N.eqb (snd (fst (fst r))) sd) (c_rows o), ch_json c with
+                     | [r], Some j => jeq (row_json r) j
+                     | _, _ => false
+                     end
+                 | _ => true
+                 end
+             | None => false
+             end) (c_children o).
+
 Definition mon_C14 (o : cli_obs) : bool :=
   c_rows_ok o &&
+  (c_timed_out o || opt_is (c_target o) || pre_error o || opt_is (c_invalid o) ||
+   match c_outdir o with ODNone => true | _ => false end || rows_cover o) &&
   (* every record's parameter set conforms, seeds are distinct *)
   forallb (fun r => conforming_json (cli_spec (c_spec o)) (row_json r)) (c_rows o) &&
   nodup_n (map (fun r => snd (fst (fst r))) (c_rows o)) &&
@@ -237,5 +277,5 @@ Definition judge_cli (o : cli_obs) : string :=
              end in
   ("CLI idx=" ++ N2s (c_idx o) ++ " acc=" ++ acc ++
    " C07=" ++ OpsCheck.b2s (mon_C07 o) ++ " C14=" ++ OpsCheck.b2s (mon_C14 o) ++ " C15=" ++ OpsCheck.b2s (mon_C15 o) ++
-   " C16=" ++ OpsCheck.b2s (mon_C16 o) ++ " C03=" ++ OpsCheck.b2s (mon_C03 o) ++ " C04=" ++ OpsCheck.b2s (mon_C04 o) ++ " C06=" ++ OpsCheck.b2s (mon_C06 o) ++ " C11=" ++ OpsCheck.b2s (mon_C11 o) ++ " code=" ++ (if exit_zero o then "0" else "nz") ++
+   " C16=" ++ OpsCheck.b2s (mon_C16 o) ++ " C03=" ++ OpsCheck.b2s (mon_C03 o) ++ " C04=" ++ OpsCheck.b2s (mon_C04 o) ++ " C06=" ++ OpsCheck.b2s (mon_C06 o) ++ " C11=" ++ OpsCheck.b2s (mon_C11 o) ++ " C08=" ++ OpsCheck.b2s (mon_C08 o) ++ " code=" ++ (if exit_zero o then "0" else "nz") ++
    " kids=" ++ N2s (N.of_nat (n_started o)) ++ " END").
